@@ -746,6 +746,9 @@ pub enum WOp {
     Write(u32),
     WriteAll(u32),
     Flush,
+    /// `try_finish()`: flushes and writes the EOF marker; the writer stays usable (`&mut self`), so
+    /// the marker becomes an empty block in the middle of the file when more is written
+    TryFinish,
 }
 
 #[derive(Clone, Debug, Serialize, Deserialize)]
@@ -775,7 +778,7 @@ fn wstrategy(tier: Tier) -> BoxedStrategy<WCase> {
     (
         payload(max),
         prop_oneof![1 => Just(None), 4 => (0u8..=9).prop_map(Some)],
-        proptest::collection::vec(prop_oneof![4 => wlen().prop_map(WOp::Write), 4 => wlen().prop_map(WOp::WriteAll), 3 => Just(WOp::Flush)], 0..=tier.pick(16usize, 40)),
+        proptest::collection::vec(prop_oneof![8 => wlen().prop_map(WOp::Write), 8 => wlen().prop_map(WOp::WriteAll), 6 => Just(WOp::Flush), 1 => Just(WOp::TryFinish)], 0..=tier.pick(16usize, 40)),
         prop_oneof![3 => Just(Kind::Plain), 1 => Just(Kind::Indexed), 2 => Just(Kind::Multi)],
         proptest::collection::vec(any::<u16>(), 0..=tier.pick(5usize, 10)),
     )
@@ -796,6 +799,7 @@ fn check_writer(c: &WCase) -> Verdict {
     let mut samples: Vec<(VirtualPosition, u64)> = Vec::new();
     let mut off = 0usize;
     let mut flushes = 0;
+    let mut try_finishes = 0;
     let mut last: Option<VirtualPosition> = None;
     let mut tell = |w: &bgzf::io::Writer<Vec<u8>>, off: usize, samples: &mut Vec<(VirtualPosition, u64)>| -> Result<(), Vec<Fail>> {
         let v = w.virtual_position();
@@ -830,6 +834,10 @@ fn check_writer(c: &WCase) -> Verdict {
             WOp::Flush => {
                 w.flush().map_err(werr)?;
                 flushes += 1;
+            }
+            WOp::TryFinish => {
+                w.try_finish().map_err(werr)?;
+                try_finishes += 1;
             }
         }
     }
@@ -897,6 +905,7 @@ fn check_writer(c: &WCase) -> Verdict {
     let mid_block = samples.iter().filter(|(v, _)| v.uncompressed() != 0).count();
     Ok(Pass::new(sought > 0 && crossed && samples.len() >= 2, key_of(c))
         .evals(1 + sought)
+        .label_if(try_finishes > 0, "try_finish-mid-history")
         .label_if(data_blocks >= 2, "blocks>=2")
         .label_if(flushes > 0, "flush")
         .label_if(mid_block > 0, "sample-inside-block")
